@@ -123,11 +123,12 @@ class ClassifierAfterKMeans(BaseEstimator, ClassifierMixin):
         <mlinsights.mlmodel.classification_kmeans.ClassifierAfterKMeans.set_params>`
         describes the pattern parameters names follow.
         """
-        res = {}
-        for k, v in self.clus.get_params().items():
-            res["c_" + k] = v
-        for k, v in self.estimator.get_params().items():
-            res["e_" + k] = v
+        res = {"estimator": self.estimator, "clus": self.clus}
+        if deep:
+            for k, v in self.clus.get_params().items():
+                res["c_" + k] = v
+            for k, v in self.estimator.get_params().items():
+                res["e_" + k] = v
         return res
 
     def set_params(self, **values):
@@ -142,7 +143,11 @@ class ClassifierAfterKMeans(BaseEstimator, ClassifierMixin):
         """
         pc, pe = {}, {}
         for k, v in values.items():
-            if k.startswith("e_"):
+            if k == "estimator":
+                self.estimator = v
+            elif k == "clus":
+                self.clus = v
+            elif k.startswith("e_"):
                 pe[k[2:]] = v
             elif k.startswith("c_"):
                 pc[k[2:]] = v
@@ -150,6 +155,7 @@ class ClassifierAfterKMeans(BaseEstimator, ClassifierMixin):
                 raise ValueError(f"Unexpected parameter name '{k}'")
         self.clus.set_params(**pc)
         self.estimator.set_params(**pe)
+        return self
 
     def __repr__(self):
         """
